@@ -328,20 +328,49 @@ def rule_compact(ctx, res):
                 if not (sz[0] == 'bin' and sz[1] == 'Add' and term_int(sz[2]) == 20):
                     ok = False
     res.check(ok and n_err >= 1 and sizes, 'MPT', b.path, 'node lists are split into entries of 20 + ADDR_LEN bytes; a non-empty remainder is rejected', detail=str(sizes[:1]))
-    cb = ctx.body('compact::nodes::deserialize::{closure#0}')
-    res.touch(cb)
-    cs = Sym(cb)
-    cs.run()
-    okc = False
-    for p in cs.complete_paths():
-        if agg_variant(p.ret) == 'Some':
-            nh = p.ret[2].get('0')
-            i = nh[2].get('id')
-            a = nh[2].get('addr')
-            r1 = [x for x in term_walk(i) if isinstance(x, tuple) and x and x[0] == 'agg' and x[1].startswith('std::ops::RangeTo')]
-            r2 = [x for x in term_walk(a) if isinstance(x, tuple) and x and x[0] == 'agg' and x[1].startswith('std::ops::RangeFrom')]
-            okc = bool(r1) and bool(r2) and term_int(r1[0][2].get('end')) == 20 and term_int(r2[0][2].get('start')) == 20 and bool(find_calls(a, 'decode_socket_addr'))
-    res.check(okc, 'TABLE', cb.path, 'an entry is id = bytes[..20], address = decode_socket_addr(bytes[20..])')
+    # an entry: id = first 20 bytes of the chunk, address = decode_socket_addr(rest of the chunk) - whether the entries are
+    # built by a `filter_map` closure or in a loop over the chunks, and whether the chunk is cut with ranges or `split_at`
+    def part_of_chunk(t):
+        """('head', n) / ('tail', n) when the term is the first n bytes / everything after the first n bytes of something"""
+        for x in term_walk(t):
+            if isinstance(x, tuple) and x and x[0] == 'agg' and isinstance(x[1], str):
+                if x[1].startswith('std::ops::RangeTo::') and term_int(x[2].get('end')) is not None:
+                    return ('head', term_int(x[2].get('end')))
+                if x[1].startswith('std::ops::RangeFrom::') and term_int(x[2].get('start')) is not None:
+                    return ('tail', term_int(x[2].get('start')))
+            if isinstance(x, tuple) and x and x[0] == 'field' and x[2] in ('0', '1') and isinstance(x[1], tuple) and x[1][0] == 'call' and x[1][1].split('::')[-1] == 'split_at':
+                n = term_int(strip_transparent(x[1][2][1]))
+                if n is not None:
+                    return ('head' if x[2] == '0' else 'tail', n)
+        return None
+    handles = []
+    cbody = ctx.f.body('compact::nodes::deserialize::{closure#0}')
+    entry_anchor = b.path
+    if cbody is not None:
+        res.touch(cbody)
+        cs = Sym(cbody)
+        cs.run()
+        entry_anchor = cbody.path
+        for p in cs.complete_paths():
+            if agg_variant(p.ret) == 'Some':
+                handles.append(p.ret[2].get('0'))
+    for p in s.paths:
+        for e in p.effects:
+            if e[0] == 'call' and e[1] and e[1].split('::')[-1] == 'push':
+                v = strip_transparent(e[2][1]) if e[2][1][0] != 'agg' else e[2][1]
+                if isinstance(v, tuple) and v[0] == 'agg' and v[1].startswith('node::NodeHandle'):
+                    handles.append(v)
+            if e[0] == 'call' and e[1] == 'node::NodeHandle::new' and find_calls(('x', e[2]), 'decode_socket_addr'):
+                handles.append(('agg', 'node::NodeHandle::NodeHandle', lib.FrozenDict((('id', e[2][0]), ('addr', e[2][1]))), None))
+    okc = bool(handles)
+    for nh in handles:
+        if not (isinstance(nh, tuple) and nh[0] == 'agg'):
+            okc = False
+            continue
+        i_, a_ = nh[2].get('id'), nh[2].get('addr')
+        if i_ is None or a_ is None or part_of_chunk(i_) != ('head', 20) or part_of_chunk(a_) != ('tail', 20) or not find_calls(a_, 'decode_socket_addr'):
+            okc = False
+    res.check(okc, 'TABLE', entry_anchor, 'an entry is id = bytes[..20], address = decode_socket_addr(bytes[20..])', key='node-entry')
     sb = ctx.body('compact::nodes::serialize')
     res.touch(sb)
     ss = Sym(sb)
